@@ -337,6 +337,11 @@ func (d *Def) getMethodNameAndSetIsStatic(
 		}
 	}
 
+	// a string literal (it may span several lines) is not a method name
+	if t == nil || t.IsStringType() {
+		return "", fmt.Errorf("syntax error, method name expected")
+	}
+
 	nextT, err := p.ReadAhead()
 	if err != nil {
 		return "", err
@@ -392,6 +397,10 @@ func (d *Def) getMethodNameAndSetIsStatic(
 		t, err = p.ReadTwice()
 		if err != nil {
 			return "", err
+		}
+
+		if t == nil || t.IsStringType() {
+			return "", fmt.Errorf("syntax error, method name expected")
 		}
 	}
 
